@@ -105,7 +105,57 @@ def exhaustive_cases(desc: list, tier: str):  # noqa: ANN201
 # ------------------------------------------------------------------ random part
 
 
+_GROUP_TOKENS = ["f", "fo", "fmt", "fmt2", "x", "xf", "m", "m1x"]
+
+
+def group_maze_spec(R: Draw) -> dict:
+    """Mark groups whose names contain one another as substrings ("fmt" / "fmt2", "f" / "xf"), used in `excludes` and in
+    node `marks` expressions: a group name denotes exactly the marks that list it as a whole word."""
+    n = R.int(3, 5)
+    marks: dict = {}
+    used: list = []
+    for i in range(n):
+        sp: dict = {}
+        toks = R.sample(_GROUP_TOKENS, R.int(0, 2))
+        if toks:
+            sp["group"] = " ".join(toks)
+            used += toks
+        if R.bool(0.3):
+            sp["attrs"] = {"id": {"default": 1}}
+        marks[f"m{i}"] = sp
+    used = sorted(set(used))
+    names = list(marks)
+    for sp in marks.values():
+        r = R.int(0, 9)
+        if r < 2 or not used:
+            continue  # absent: excludes itself
+        if r == 2:
+            sp["excludes"] = ""
+        elif r == 3:
+            sp["excludes"] = "_"
+        else:
+            sp["excludes"] = " ".join(R.sample(used + names, R.int(1, 2)))
+    nodes = _nodes()
+    for k in ("p02", "p1", "pg"):
+        nodes[k] = {**nodes[k], "marks": " ".join(R.sample(used + names, R.int(1, 2))) if used else "m0"}
+    return {"nodes": nodes, "marks": marks}
+
+
 def generate(R: Draw, tier: str) -> dict:
+    if R.bool(0.25):
+        sref = group_maze_spec(R)
+        lib, rs = schemas.get(sref)
+        g = docgen(rs)
+        ops = []
+        for _ in range(R.int(1, 10)):
+            k = R.weighted([("add", 6), ("remove", 2), ("remove_type", 1), ("set_from", 1)])
+            if k in ("add", "remove"):
+                ops.append([k, g.mark(R, R.choice(rs.mark_names))])
+            elif k == "remove_type":
+                ops.append([k, R.choice(rs.mark_names)])
+            else:
+                ops.append([k, [g.mark(R, R.choice(rs.mark_names)) for _ in range(R.int(0, 4))]])
+        return {"mode": "hist", "schema": sref, "ops": ops}
     if R.bool(0.5):
         sref = R.choice(schemas.MARK_VARIANTS + ["list", "doc_marks"])
         if R.bool(0.5):
